@@ -24,7 +24,7 @@ ENCODED = ["twisted.python.logfile:LogFile.write", "twisted.python.logfile:LogFi
            "twisted.python.logfile:BaseLogFile.write", "twisted.python.logfile:BaseLogFile._openFile",
            "twisted.python.logfile:BaseLogFile.reopen", "twisted.python.logfile:BaseLogFile.__init__",
            "twisted.python.logfile:BaseLogFile.close", "twisted.python.logfile:BaseLogFile.flush"]
-BOUNDS = {"quick": {"writes": 3, "steps": 16}, "thorough": {"writes": 6, "steps": 40}}
+BOUNDS = {"quick": {"writes": 4, "steps": 15}, "thorough": {"writes": 6, "steps": 28}}
 B = {}
 BOUNDS_TEXT = ("exactly `writes` write() calls of any lengths >= 0 (zero-length included) into a fresh "
                "directory; any rotateLength >= 0; maxRotatedFiles in {None, 1, 2}; at most one text write "
@@ -213,13 +213,16 @@ def rotate_crash(lens: List[int], rot: int, maxr: int, crash_at: int, cut: int) 
         fs.arm(crash_at, cut)
         lf = None
         i = 0
+        writing = False
         try:
             lf = _mk(rot, maxr)
             while i < len(lens):
                 raw = _payload(i, lens[i])
+                writing = True
                 lf.write(raw)
                 if fs.crashed:
                     break
+                writing = False
                 stream.append(raw)
                 i += 1
         except Crash:
@@ -227,17 +230,18 @@ def rotate_crash(lens: List[int], rot: int, maxr: int, crash_at: int, cut: int) 
         if fs.crashed:
             cover("crashed")
             last = fs.log[-1][2]
-            if last[0] == "write":
-                # the dying write got a prefix of payload i onto the disk
-                cover("torn")
-                n = lens[i]
-                stream.append(_payload(i, n)[:cut] if cut < n else _payload(i, n))
-            elif last[0] in ("rename", "remove") or (last[0] == "create" and i > 0):
-                cover("in_rotate")
+            if writing:
+                if last[0] == "write":
+                    # the dying write got a prefix of payload i onto the disk
+                    cover("torn")
+                    n = lens[i]
+                    stream.append(_payload(i, n)[:cut] if cut < n else _payload(i, n))
+                else:
+                    cover("in_rotate")
+                i += 1
             # restart on the same directory and write the rest
             fs.reboot()
             lf = _mk(rot, maxr)
-            i += 1
             while i < len(lens):
                 raw = _payload(i, lens[i])
                 lf.write(raw)
@@ -287,9 +291,11 @@ VECTORS = {
         ([10, 10, 10], 10, 2, 1, 25, 2),
         ([5, 5, 5], 0, -1, 0, 5, 1),
         ([4, 0, 9], 4, 2, 2, 36, 0),
+        ([1, 1, 1, 1], 1, 2, -1, 0, -1),       # three rotations, two files kept
     ],
     "rotate_crash": [
         ([10, 10, 10], 10, -1, 4, 0), ([10, 10, 10], 10, 1, 6, 0), ([10, 10, 10], 10, 2, 9, 3),
         ([2, 2, 2], 1, -1, 7, 1), ([2, 2, 2], 1, -1, 16, 0), ([3, 0, 3], 2, 2, 0, 0),
+        ([1, 1, 1, 1], 1, 2, 11, 0), ([1, 1, 1, 1], 1, -1, 12, 0),
     ],
 }
